@@ -37,6 +37,13 @@ package keeper
 //@   walk 0 invariant forall t int :: 0 <= t && t < $i ==> !isFinal(now, val(OutputProposals[$key(t)]).L1BlockTime, cfg.FinalizationPeriod)
 //@   assigns \nothing
 
+//@ func (Keeper) SetBridgeConfig
+//@   opt inline
+//@   ensures err == nil ==> bridgeConfig.FinalizationPeriod > 0 && addrOK(1, bridgeConfig.Challenger) && addrOK(1, bridgeConfig.Proposer)     // C05,C12: only_validated_configs_are_stored
+//@   ensures err == nil ==> BridgeConfigs == old(BridgeConfigs)[bridgeId := Some(bridgeConfig)]
+//@   ensures err != nil ==> BridgeConfigs == old(BridgeConfigs)
+//@   assigns BridgeConfigs[bridgeId]
+
 //@ func (Keeper) IncreaseNextL1Sequence
 //@   requires nextOr1(NextL1Sequences[bridgeId]) < 18446744073709551615                                 // A-CTR
 //@   ensures err == nil && ret0 == nextOr1(old(NextL1Sequences)[bridgeId])                             // C10: returns_next
@@ -296,6 +303,7 @@ package keeper
 //@   ensures forall t int :: 0 <= t && t < len(bs) ==> BridgeConfigs[bs[t].BridgeId] == Some(bs[t].BridgeConfig)
 //@        && NextL1Sequences[bs[t].BridgeId] == Some(bs[t].NextL1Sequence) && NextOutputIndexes[bs[t].BridgeId] == Some(bs[t].NextOutputIndex)  // C16: config_and_counters_imported
 //@   ensures forall b uint64 :: BridgeConfigs[b] != None ==> (exists t int :: 0 <= t && t < len(bs) && bs[t].BridgeId == b)                    // C16: no_other_bridge_imported
+//@   ensures forall t int :: 0 <= t && t < len(bs) ==> bs[t].BridgeConfig.FinalizationPeriod > 0 && addrOK(1, bs[t].BridgeConfig.Challenger) && addrOK(1, bs[t].BridgeConfig.Proposer)   // C05,C12: every_imported_bridge_has_a_positive_period_and_decodable_roles (import refuses anything else)
 //@   ensures forall t int :: 0 <= t && t < len(bs) ==> (forall u int :: 0 <= u && u < len(bs[t].Proposals) ==>
 //@        OutputProposals[(bs[t].BridgeId, bs[t].Proposals[u].OutputIndex)] == Some(bs[t].Proposals[u].OutputProposal))                       // C16: outputs_imported_under_their_index
 //@   ensures forall t int :: 0 <= t && t < len(bs) ==> (forall u int :: 0 <= u && u < len(bs[t].TokenPairs) ==>
@@ -307,6 +315,7 @@ package keeper
 //   outer loop over the bridges ($i0 inside the inner loops is the index of the current bridge)
 //@   loop 0 invariant 0 <= $i && $i <= len(bs)
 //@   loop 0 invariant Params == Some(data.Params)
+//@   loop 0 invariant forall t int :: 0 <= t && t < $i ==> bs[t].BridgeConfig.FinalizationPeriod > 0 && addrOK(1, bs[t].BridgeConfig.Challenger) && addrOK(1, bs[t].BridgeConfig.Proposer)
 //@   loop 0 invariant forall t int :: 0 <= t && t < $i ==> BridgeConfigs[bs[t].BridgeId] == Some(bs[t].BridgeConfig)
 //@        && NextL1Sequences[bs[t].BridgeId] == Some(bs[t].NextL1Sequence) && NextOutputIndexes[bs[t].BridgeId] == Some(bs[t].NextOutputIndex)
 //@   loop 0 invariant forall b uint64 :: BridgeConfigs[b] != None || NextL1Sequences[b] != None || NextOutputIndexes[b] != None ==> (exists t int :: 0 <= t && t < $i && bs[t].BridgeId == b)
